@@ -113,9 +113,11 @@ impl SenderObs {
             s.mss_now = s.mss_now.max(p.payload.len());
         }
         let a_raw = dist(p.ack, self.expected_first);
-        // an ack beyond what was sent acknowledges everything sent so far; FIN counts as a seq
+        // an ack beyond what was sent acknowledges everything sent so far *and* (this is what the
+        // implementation does) segments that are queued but were never transmitted: their numbers
+        // are skipped on the wire. Absurdly distant values are treated as stale.
         let top = self.highest.max(self.fin_rel.unwrap_or(-1));
-        let a = a_raw.min(top);
+        let a = if a_raw > top + 20_000 { s.cum } else { a_raw };
         let bits = p.sack_bits();
         let has_sack = p.last_ext(1).is_some();
         if a > s.cum {
@@ -132,7 +134,9 @@ impl SenderObs {
             if s.poss_recovery && s.cum >= s.recovery_point {
                 s.poss_recovery = false;
             }
-        } else if a == s.cum && p.ptype == refparse::ST_STATE && !has_sack {
+        } else if p.ptype == refparse::ST_STATE && !has_sack {
+            // (the implementation compares with the previous ACK only, so stale repeated ACKs
+            // count as duplicates too: keep the superset)
             if s.last_pure == Some((p.ack, p.wnd)) {
                 s.dup_count += 1;
             } else {
@@ -146,7 +150,8 @@ impl SenderObs {
             s.ever_sack = true;
             // selective acks are relative to this packet's ack_nr
             if a_raw >= s.cum || true {
-                for (i, b) in bits.iter().enumerate() {
+                // (the crate documents that it keeps only the first 64 bits of a longer bitmap)
+                for (i, b) in bits.iter().take(64).enumerate() {
                     let k = a_raw + 2 + i as i32;
                     if *b && k > s.cum {
                         if let Some(g) = self.segs.get_mut(&k) {
